@@ -1341,11 +1341,19 @@ def check_C20(ctx):
     djobs = [(s.text(), r) for s in deep_scens for r in DEEP_REPS]
     obs += bench.run_many(djobs, env=asan_env(), timeout=120)
     jobs += djobs
+    # more tests, and more suites, than the process may have open files: what is kept per test or per suite is released again
+    fd_scens = [Scen(S("top", items=[T(f"t{i}", body=["P"] if i % 9 else ["F"]) for i in range(70)])),
+                Scen(S("top", items=[S(f"s{i}", items=[T(f"t{i}", body=["P"])]) for i in range(70)]))]
+    fd_labels = ["70 tests with 40 file descriptors", "70 suites with 40 file descriptors"]
+    fjobs = [(s.text(), r) for s in fd_scens for r in REPORTERS_ALL]
+    fobs = bench.run_many(fjobs, env=asan_env(), timeout=120, nofile=40)
     k = 0
     shown = set()
     models = run_model_scenarios([s.text() for s in scens + deep_scens])
-    for s, lab, m in zip(scens + deep_scens, labels + deep_labels, models):
-        for rep in (REPORTERS_ALL if s in scens else DEEP_REPS):
+    obs += fobs; jobs += fjobs
+    models += run_model_scenarios([s.text() for s in fd_scens])
+    for s, lab, m in zip(scens + deep_scens + fd_scens, labels + deep_labels + fd_labels, models):
+        for rep in (DEEP_REPS if s in deep_scens else REPORTERS_ALL):
             o = obs[k]; k += 1
             crashed = o.timeout or (o.rc is not None and (o.rc < 0 or o.rc in (98, 99))) or "ERROR: AddressSanitizer" in o.stderr or "runtime error" in o.stderr
             if crashed:
